@@ -154,7 +154,13 @@ type verifShapeNoTags struct {
 
 func verifHarnessC20Parse() {
 	verifEnvReset()
-	switch nondetChoice("shape", 8) {
+	switch nondetChoice("shape", 10) {
+	case 8:
+		_, err := ParseFields(nil, "pfx")
+		assert("nil-argument-rejected", err != nil)
+	case 9:
+		_, err := ParseFields((*verifShapeOK)(nil), "pfx")
+		assert("nil-struct-pointer-rejected", err != nil)
 	case 7:
 		_, err := ParseFields(&verifShapeNamedJSONBadType{}, "pfx")
 		assert("unsupported-type-rejected-also-when-the-name-reads-json", err != nil)
